@@ -2,12 +2,15 @@
 // A Go expression may have an effect visible to the source program when it contains a call, or an
 // operation that can fail at run time: integer division (division by zero) and indexing (out of range).
 // Statements: `go`, stores through index/pointer/field, and anything containing such an expression.
+pub open spec fn go_int_ty(t: GoType) -> bool {
+    t is TInt8 || t is TInt16 || t is TInt32 || t is TInt64 || t is TUint8 || t is TUint16 || t is TUint32 || t is TUint64
+}
 pub open spec fn expr_may_effect(e: Expr) -> bool
     decreases e,
 {
     match e {
         Expr::Call { .. } => true,
-        Expr::BinaryOp { op, lhs, rhs, .. } => op is Div || expr_may_effect(*lhs) || expr_may_effect(*rhs),
+        Expr::BinaryOp { op, lhs, rhs, ty } => (op is Div && go_int_ty(ty)) || expr_may_effect(*lhs) || expr_may_effect(*rhs),   // integer division fails on a zero divisor; a float division cannot fail (Inf / NaN)
         Expr::Index { .. } => true,
         Expr::UnaryOp { expr, .. } => expr_may_effect(*expr),
         Expr::FieldAccess { obj, .. } => expr_may_effect(*obj),
